@@ -221,4 +221,6 @@ def run(ctx):
     # ---------------- borrowed storage pointers
     from rules.borrow import rule_borrow
     rules.append(rule_borrow(ctx, m, files=["Digit.hpp"], extra_fns=["Qentem::StringStream::InsertAt", "Qentem::String::InsertAt"]))
+    from rules.common import rule_stream_past
+    rules.append(rule_stream_past(ctx, m))
     return rules
